@@ -26,6 +26,9 @@ CHECKS = {
  'C09': ('exploration', 'seeded deterministic simulation: conservation invariant on yylineno over the recorded history (self-relative oracle)',
          'sampled scenarios x plans; invariant evaluated at every action entry, op and yylex return',
          'trusts: only the event log; no tokeniser model is involved', '6 C09'),
+ 'C11': ('exploration', 'seeded deterministic simulation: buffer-API histories (top level, actions, EOF actions, yywrap) checked against a per-buffer stream reference model',
+         'sampled scenarios x histories over create/scan_*/switch/push/pop/flush/delete/yylex with 3-30 sources; per-buffer unread text, BOL and line number are tracked and compared at every event',
+         'trusts: the reference matcher with triage; only histories the manual permits are generated', '6 C11'),
  'C13': ('exploration', 'seeded deterministic simulation under ASan/UBSan with an allocation ledger, junk-fill differential and destroy/reuse differential',
          'sampled scenarios x plans from the union of the other workloads; every allocator call is ledgered; a third of the plans are re-run with another fill pattern and (non-reentrant) against a fresh process',
          'trusts: ASan/UBSan; uninitialised reads are visible only when they change behaviour under a different fill pattern (MSan unusable here)', '6 C13'),
